@@ -70,13 +70,13 @@ def run(ctx):
     thorough = ctx.thorough()
     big = 80000000
     lines = []
-    nseeds = 3 if thorough else 1
+    nseeds = 2 if thorough else 1
     kmax = 12 if thorough else 9
     for _ in range(nseeds):
         for scen in (0, 1, 2):
             for k in range(kmax):
                 for variant in ((0, 1, 2, 3) if thorough else (rng.choice([0, 1]), rng.choice([2, 3]))):
-                    js = [0] + ([1, 2, 3, 5] if thorough else [rng.randrange(1, 6)])
+                    js = [0] + ([1, 2, 4] if thorough else [rng.randrange(1, 6)])
                     for j in js:
                         lines.append("%d %d %d %d %d %d" % (rng.randrange(1, 2 ** 40), scen, k, j, big, variant))
     # marks that expire: an earlier prune marked packs, keep_delete passes, then the concurrent phase
